@@ -12,8 +12,10 @@ from checks import dpgen, dplib, c01
 PROP = "C04"
 
 
+S, D, P = dpgen.src, dpgen.dst, dpgen.proc
+
+
 def order_scenarios(engine, rng, n):
-    S, D, P = dpgen.src, dpgen.dst, dpgen.proc
     out = []
     for i in range(n):
         nrec = rng.randint(3, 9)
@@ -54,6 +56,29 @@ def order_scenarios(engine, rng, n):
     return out
 
 
+def hole_scenarios(engine, sizes=(5, 6, 7, 8, 9), max_holes=2):
+    """one batch of n records through two chained processors: the first one takes out every subset of one or two
+    records (filtered, or rejected and dead-lettered), the second one returns a (modified) record for every record
+    it is given - its results have to be put back around the holes"""
+    import itertools
+    out = []
+    for n in sizes:
+        tags = ["s1#%d" % k for k in range(1, n + 1)]
+        for h in range(1, max_holes + 1):
+            for holes in itertools.combinations(range(n), h):
+                for kind in ("filter", "error"):
+                    if kind == "error" and (h > 1 or holes[0] % 2 == 0):
+                        continue   # rejections: single holes at every other place (keeps the family small)
+                    r1 = {tags[i]: kind for i in holes}
+                    sc = dpgen.scenario("%s-hole-%d-%s-%s" % (engine, n, "".join(str(i) for i in holes), kind[0]), engine,
+                                        [S("s1", n, [n], gated=False)], [D("d1", gated=False)],
+                                        [P("p1", "pipeline", 1, r1), P("p2", "pipeline", 1, {}, default="modify")],
+                                        window=4, threshold=3, steps=[{"do": "Settle"}], dlq_cfg={"gated": False})
+                    sc["features"] = dpgen.features_of(sc)
+                    out.append(sc)
+    return out
+
+
 def nontrivial(sc, tr):
     acks = [e["idx"] for e in tr if e["ev"] == "SrcAck"]
     if len(acks) < 2:
@@ -75,6 +100,8 @@ def run(tier, seed):
                           focus=("store-", "emptypos", "ackfail", "dlqclose"))
     n = 60 if tier == "quick" else 1500
     chk.run(order_scenarios("v1", rng, n) + order_scenarios("v2", rng, n), name="order")
+    chk.run(hole_scenarios("v1", (5, 7) if tier == "quick" else (5, 6, 7, 8, 9, 12)) +
+            hole_scenarios("v2", (5, 7) if tier == "quick" else (5, 6, 7, 8, 9, 12)), name="holes")
     chk.validate()
     return chk.finish(nontrivial,
                       "as C01 plus an order-stress family (parallel workers released in scripted order, mid-batch "
